@@ -7,7 +7,8 @@ Require Import Nib.Gen.C16Facts.
 Definition current_facts : facts := {|
   f_sites := gate_sites;
   f_handlers := handlers;
-  f_gate_functions := gate_functions |}.
+  f_gate_functions := gate_functions;
+  f_wasm_routes := wasm_routes |}.
 
 (** The current tree gates exactly the operations the model gates, each gate call precedes every
     state write of its function, and the gate functions have the modelled normal form.  A new gated
@@ -16,6 +17,17 @@ Definition current_facts : facts := {|
 Theorem C16_current_gates_match_model : facts_ok current_facts = true.
 Proof. vm_compute. reflexivity. Qed.
 Print Assumptions C16_current_gates_match_model.
+
+(** app/wasmext: every path from DispatchMsg to the Msg router passes the signer guard, whatever
+    branch the dispatched message takes — so the model the traces are compared with, and for which
+    C16_accepted_tree_well_authorised / C16_privileged_leaf_sudoer_and_backed are proved
+    ([c_wguard = true], [Check.w_cfg]), is the model of THIS tree; a tree for which this fails is the
+    variant of C16_unguarded_wrapper_refuted. *)
+Theorem C16_wasm_dispatch_guards_every_branch :
+  wguard_of current_facts = true /\
+  forall g ow, c_wguard (mk_cfg g ow) = wguard_of current_facts.
+Proof. split; [vm_compute; reflexivity | intros; vm_compute; reflexivity]. Qed.
+Print Assumptions C16_wasm_dispatch_guards_every_branch.
 
 (** every gated operation of the model is carried by a handler found gated in the tree *)
 Theorem C16_every_model_op_is_gated_in_tree :
